@@ -5,7 +5,7 @@ from __future__ import annotations
 from .. import oracle
 from .. import paths as P
 from .. import terms as T
-from ..model import Program
+from ..model import AnalysisError, Program
 from ..report import Report
 from . import c05, c09
 from . import common as C
@@ -790,7 +790,11 @@ def run(prog: Program, rep: Report, tier: str):
     hs = prog.function(f"{C.INSP}._hints_from_signature")
     ok = True
     seen = False
-    for p in P.paths_of(prog, hs):
+    try:
+        hs_paths = P.spaths(prog, hs)  # the loop body may live in a private helper of its own
+    except AnalysisError:
+        hs_paths = P.paths_of(prog, hs)
+    for p in hs_paths:
         empty = any(pol and g[0] == "cmp" and g[1] in ("is", "==") and T.contains(g[3], lambda s: s[0] == "attr" and s[2] == "empty" or T.refname(s) == "inspect.Parameter.empty") and T.contains(g[2], lambda s: s[0] == "attr" and s[2] == "annotation") for g, pol in p.guards())
         if not empty:
             continue
@@ -799,6 +803,25 @@ def run(prog: Program, rep: Report, tier: str):
                 seen = True
                 if e[3] != ("ref", "typing.Any"):
                     ok = False
+    if not seen:
+        # the per-parameter decision in a private helper whose value is what the hints hold (`hints[n] = _hint_of(n, p, …)`,
+        # or the dict comprehension the loop equals): the helper answers typing.Any where the annotation is empty
+        is_empty = lambda g: g[0] == "cmp" and g[1] in ("is", "==") and T.contains(g[3], lambda s: s[0] == "attr" and s[2] == "empty" or T.refname(s) == "inspect.Parameter.empty") and T.contains(g[2], lambda s: s[0] == "attr" and s[2] == "annotation")  # noqa: E731
+        stored = []
+        for p in P.paths_of(prog, hs):
+            stored += [e[3] for e in p.events if e[0] == "setitem"]
+            if p.exit[0] == "return":
+                stored.append(p.exit[1])
+        for c in {c for tm in stored for c in T.calls_in(tm)}:
+            q = T.refname(c[1])
+            h = prog.functions.get(q) if q else None
+            if h is None or h.cls is not None or h.module is not hs.module or not h.name.startswith("_") or h is hs:
+                continue
+            for p in P.paths_of(prog, h):
+                if p.exit[0] == "return" and any(pol and is_empty(g) for g, pol in p.guards()):
+                    seen = True
+                    if p.exit[1] != ("ref", "typing.Any"):
+                        ok = False
     rep.check(ok and seen, "R15.2", hs.qualname, hs.loc, "a parameter without annotation is hinted typing.Any (pass-through)", "a parameter without annotation is hinted something other than typing.Any (e.g. the class of its default): values of another class are converted or rejected instead of passing through", detail="unannotated-any")
     # the producer/consumer pair of the graph: get_type_graph hands out a fresh sorter per call (shared with R12.2)
     from ..report import Report as _R, absorb
